@@ -348,6 +348,12 @@ func ruleErrProp(c *Ctx) []Obligation {
 							o.add(Discharged, fname(f), construct, ci.Pos(), false, "ignored error of a write into a private in-memory buffer (documented to be always nil)")
 							continue
 						}
+						// a method of *bytes.Buffer / *strings.Builder called on a value of exactly that static
+						// type: "err is always nil" is part of the method's documentation, whoever owns the buffer
+						if sc := ci.Common().StaticCallee(); sc != nil && (strings.HasPrefix(sc.String(), "(*bytes.Buffer).Write") || strings.HasPrefix(sc.String(), "(*strings.Builder).Write")) {
+							o.add(Discharged, fname(f), construct, ci.Pos(), false, "ignored error of %s (documented to be always nil)", sc.String())
+							continue
+						}
 					}
 				}
 				if _, isDefer := ci.(*ssa.Defer); isDefer {
